@@ -29,6 +29,12 @@ def run(ctx):
     traces, verd, extras = asmcheck.run_suite(ctx, "random-programs", cases)
     for c in cases:
         ctx.add_class("prog|" + c.tag + "|" + str(min(len(c.prog) // 10, 9)))
+    # the pass structure itself: pass-boundary hook events of random programs validated against AsmPasses (collect, translate, size, lay, fix, backpatch)
+    pcases = []
+    for _ in range(20000 if thorough else 2500):
+        prog, kind = proggen.gen_program(rnd, 3, 16, faults=rnd.random() < 0.2)
+        pcases.append(Case(prog, tag="passes-" + kind))
+    asmcheck.run_pass_traces(ctx, "pass-traces", pcases)
     # accepted free text: single-line mutations of valid programs (data directives included), judged with "raw" statements
     from harness.props import c13
     corpus = [c13.README] + [Case(proggen.gen_program(rnd, 3, 14, faults=False)[0]).lines for _ in range(300)]
